@@ -582,6 +582,7 @@ def _exec_run(net, op, ow_op, i, ctx, ctrl_desc, tmpdir, owm):
             run=wrapper, progress_function=progress, **kw))
     finally:
         owm.perf_counter = old_pc
+    live_final_taps = net.trafo["tap_pos"].copy() if "trafo" in net and len(net.trafo) else None
     ctx.sim["time_steps"] += len(ts_list)
     ctx.sim["run_invocations"] += wrapper.n
     if wrapper.recycled:
@@ -608,21 +609,26 @@ def _exec_run(net, op, ow_op, i, ctx, ctrl_desc, tmpdir, owm):
         _, corder = get_controller_order(replica, replica.controller)
         order = [c for lvl in corder for c, _ in lvl]
     for pos_, t in enumerate(ts_list):
-        if has_tapctrl and pos_ > 0 and pos_ in tap_at_start and \
-                any(step_start.get(pos_ - 1, 0) < r <= step_start.get(pos_, wrapper.n) for r in wrapper.raised):
-            # an evaluation of the previous live step raised inside the control loop: the tap positions the
-            # interrupted loop left behind ARE the network this step starts from (a tap controller with a
-            # dead band is history dependent by design), so the replica adopts them
-            replica.trafo["tap_pos"] = tap_at_start[pos_].reindex(replica.trafo.index).values
-            ctx.probe("replica_adopts_live_tap_state_after_failed_step")
         for c in order:
             c.time_step(replica, t)
         if has_tapctrl:
-            # controllers with state (tap positions they set persist): the replica itself is scrubbed and the
-            # step is evaluated by a fresh control loop on it
-            from pandapower.control import run_control as _rc
-            fresh = oracles.scrub_inplace(replica)
-            _, e = c08._plain_call(lambda: _rc(fresh, run=run_ref, **op["kw"]))
+            # tap controllers act inside the step (dead band / tolerance: where their loop stops depends on the
+            # iterates, and a loop interrupted by a failed evaluation leaves its taps behind): the reference is a
+            # fresh power flow of the element state the live step ENDED with - the tap positions seen at the
+            # start of the next step (progress seam), after the last step those of the net
+            tap_end = tap_at_start.get(pos_ + 1) if pos_ + 1 < len(ts_list) else live_final_taps
+            if tap_end is None:
+                ref_failed[t] = True
+                ref_abnormal[t] = False
+                for c in order:
+                    c.finalize_step(replica, t)
+                continue
+            replica.trafo["tap_pos"] = tap_end.reindex(replica.trafo.index).values
+            ctx.probe("replica_adopts_live_tap_state_after_failed_step")
+            fresh = oracles.scrubbed_copy(replica)
+            if len(fresh.controller):
+                fresh.controller["in_service"] = False       # (plain power flow of that state)
+            _, e = c08._plain_call(lambda: run_ref(fresh, **op["kw"]))
         else:
             fresh = oracles.scrubbed_copy(replica)
             _, e = c08._plain_call(lambda: run_ref(fresh, **op["kw"]))
@@ -693,11 +699,16 @@ def _exec_run(net, op, ow_op, i, ctx, ctrl_desc, tmpdir, owm):
         ctx.event("run_timeseries", type(exc).__name__, wrapper.n, dumps, sigs)
         return
     failed_steps = set()
+    pf_failed_steps = set()
     params = ow.output.get("Parameters")
     # steps at which the live run had a failing evaluation: identified via the recorded wrapper failures is
     # not step-exact, so the (documented) Parameters table is read, falling back to the replica
     if params is not None and "powerflow_failed" in params and not any(dumps[:-1]):
         failed_steps = set(params.index[params["powerflow_failed"].values.astype(bool)].tolist())
+        pf_failed_steps = set(failed_steps)
+        if "controller_unstable" in params:
+            # (a control loop that did not converge inside the step: documented flag, no results for that step)
+            failed_steps |= set(params.index[params["controller_unstable"].values.astype(bool)].tolist())
     any_compared = False
     failed_seen = False
     for (tab, var, index, ev, en) in wanted:
@@ -732,6 +743,15 @@ def _exec_run(net, op, ow_op, i, ctx, ctrl_desc, tmpdir, owm):
                     f"as failed (values {df.loc[t, cols].values[:3]})")
                 break
             live_failed = ((t in failed_steps) if flags_known else ref_failed[t]) or last_raised
+            if live_failed and flags_known and t in pf_failed_steps and not tainted and not ref_failed[t] and \
+                    not ref_abnormal[t] and (tab, var, t) in ref and \
+                    not any(lo_n < r_ <= hi_n for r_ in wrapper.fail_at):
+                # the step is recorded as failed although nothing was planned to fail in it and a fresh power flow
+                # of its element state converges in a few iterations to an ordinary operating point
+                bad("step fails although a fresh power flow converges", logged,
+                    f"{name}: time step {t} is recorded as failed (power flow did not converge) - a fresh power flow "
+                    f"of that step converges to an ordinary operating point; previous live step failed: {prev_failed}")
+                break
             if live_failed:
                 # the failed evaluation discards the recycled state (net._ppc): the next step starts afresh
                 prev_failed = True
